@@ -227,6 +227,29 @@ example : ∃ x0 log c' y, fromCompressed exCfg exData = some x0 ∧
 example : Inv exCfg exCoder ∧ (tableModel [0, 1, 8]).WellFormed exCfg.P :=
   ⟨exCoder_inv, wf_two (by decide) (by decide)⟩
 
+/-- hypotheses of `enc_dec_step` / `dec_enc_step`: the example coder decodes (its compressed
+    head is exactly `2^P`, so the buffer branch is taken) and encodes (refill branch, since its
+    remainders head is exactly `2^(S-W-P)`) -/
+example : (∃ s y, decode exCfg (tableModel [0, 1, 8]) exCoder = .ok (s, y)) ∧
+    (∃ y, encode exCfg (tableModel [0, 1, 8]) 1 exCoder = .ok y) :=
+  ⟨⟨_, _, rfl⟩, ⟨_, rfl⟩⟩
+
+/-- hypotheses of `precision_inverse`, increasing (3 → 8) and decreasing (3 → 1, with refill) -/
+example : PrecOk exCfg.W exCfg.S 8 ∧ PrecOk exCfg.W exCfg.S 1 ∧
+    (∃ y, changePrecision exCfg 8 exCoder = .ok y) ∧
+    (∃ y, changePrecision exCfg 1 exCoder = .ok y ∧ y.remainders = []) :=
+  ⟨by decide, by decide, ⟨_, rfl⟩, ⟨_, rfl, rfl⟩⟩
+
+/-- `errors_not_garbage` is not vacuous either: an exhausted coder reports `outOfData`, a
+    coder without remainders refuses to decrease the precision -/
+example : decode exCfg (tableModel [0, 1, 8])
+      { compressed := [], remainders := [], heads := { compressed := 1, remainders := 32 } }
+      = .error .outOfData ∧
+    changePrecision exCfg 1
+      { compressed := [], remainders := [], heads := { compressed := 1, remainders := 32 } }
+      = .error .outOfRemainders :=
+  ⟨rfl, rfl⟩
+
 example : ({ W := 8, S := 16, P := 8, B := 8 } : Cfg).Valid := by decide
 example : ({ W := 64, S := 128, P := 32, B := 32 } : Cfg).Valid := by decide
 
